@@ -23,23 +23,38 @@ class Ctx:
         self._atoms = None
         self.assumptions = tuple(assumptions)  # ((predicate on a boolean term, truth value), ...)
 
+    @property
+    def prog(self):
+        return self.body.prog
+
+    @prog.setter
+    def prog(self, v):
+        pass
+
     def with_removed(self, more):
-        c = Ctx(self.body, self.removed | frozenset(more), self.T.params, self.T.captures, self.assumptions)
-        c.prog = getattr(self, "prog", None)
-        return c
+        """the same body with more edges pruned.  A world set produced by world_edges & co. also
+        carries the assumption it stands for, so that callees analysed from this context (sub())
+        are pruned consistently."""
+        extra = tuple(a for a in getattr(more, "assume", ()) if a not in self.assumptions)
+        return Ctx(self.body, self.removed | frozenset(more), self.T.params, self.T.captures, self.assumptions + extra)
+
+    def sub(self, body, params=None, captures=None):
+        """context of a callee / closure analysed on behalf of this one: same world assumptions."""
+        c = Ctx(body, params=params, captures=captures, assumptions=self.assumptions)
+        return c.settle() if self.assumptions else c
 
     def assume_bool(self, pred, value):
         """world assumption: every boolean term accepted by `pred` has truth value `value`
         (used for tests that are stored in a variable / merged before being branched on)."""
-        c = Ctx(self.body, self.removed, self.T.params, self.T.captures, self.assumptions + ((pred, value),))
-        c.prog = getattr(self, "prog", None)
-        return c
+        return Ctx(self.body, self.removed, self.T.params, self.T.captures, self.assumptions + ((pred, value),))
 
     def assume_variant(self, pred, name):
         """world assumption: every enum value accepted by `pred` is of variant `name`."""
-        c = Ctx(self.body, self.removed, self.T.params, self.T.captures, self.assumptions + ((pred, ("variant", name)),))
-        c.prog = getattr(self, "prog", None)
-        return c
+        return Ctx(self.body, self.removed, self.T.params, self.T.captures, self.assumptions + ((pred, ("variant", name)),))
+
+    def assume_ok(self, pred, ok):
+        """world assumption: every Option/Result value accepted by `pred` is Some/Ok (ok) or None/Err."""
+        return Ctx(self.body, self.removed, self.T.params, self.T.captures, self.assumptions + ((pred, ("ok", bool(ok))),))
 
     def _assumed_variant(self, subj):
         for pred, value in self.assumptions:
@@ -47,16 +62,22 @@ class Ctx:
                 return value[1]
         return None
 
+    def _assumed_ok(self, subj):
+        return assumed_ok(self.assumptions, subj)
+
     def _assumed(self, t):
         if self.assumptions and getattr(self, "prog", None) is not None and t[0] == "call":
             # a boolean computed by a small local function: evaluate it under the same assumptions
             cb = _callee_body(self.prog, t)
             if cb is not None and cb.key != self.body.key and cb.kind == "fn" and len(cb.blocks) < 120 and cb.j.get("ret_ty") == "bool":
                 cc = Ctx(cb, params={i + 1: a for i, a in enumerate(t[2])}, assumptions=self.assumptions)
-                cc.prog = self.prog
                 rt = cc.settle().T.return_term()
                 if rt[0] == "const" and rt[1] == "bool":
                     return rt
+        if t[0] == "call" and t[1] in IS_TESTS and t[2]:
+            a = self._assumed_ok(t[2][0])
+            if a is not None:
+                return ("const", "bool", a == IS_TESTS[t[1]])
         for pred, value in self.assumptions:
             if isinstance(value, tuple):
                 continue
@@ -85,6 +106,15 @@ class Ctx:
                             for tg in rt[1]:
                                 if tg not in rt[2]:
                                     rem.add((bi, tg))
+            if atom[0] == "variant" and self.assumptions:
+                rt = result_test(atom)
+                if rt is not None:
+                    a = self._assumed_ok(rt[0])
+                    if a is not None:
+                        good, bad = (rt[1], rt[2]) if a else (rt[2], rt[1])
+                        for tg in bad:
+                            if tg not in good:
+                                rem.add((bi, tg))
             if atom[0] == "variant":
                 subj = atom[1]
                 av = self._assumed_variant(subj)
@@ -185,6 +215,30 @@ class Ctx:
                 out.append((bi, ("int", term, m)))
         self._atoms = out
         return out
+
+
+def assumed_ok(assumptions, subj):
+    if subj[0] == "trybranch":
+        subj = subj[1]
+    for pred, value in assumptions:
+        if isinstance(value, tuple) and value[0] == "ok" and pred(subj):
+            return value[1]
+    return None
+
+
+class Rem(set):
+    """a set of pruned edges that remembers the world assumption it encodes"""
+    assume = ()
+
+    def __or__(self, other):
+        r = Rem(set.__or__(self, other))
+        r.assume = tuple(self.assume) + tuple(getattr(other, "assume", ()))
+        return r
+
+    def __ior__(self, other):
+        set.__ior__(self, other)
+        self.assume = tuple(self.assume) + tuple(getattr(other, "assume", ()))
+        return self
 
 
 def _known_bool(t):
@@ -308,7 +362,7 @@ def pass_edges(ctx, guard, prog, depth=3, found=None):
                 cb = _callee_body(prog, subj)
                 if cb is not None and cb.key != ctx.body.key:
                     params = {i + 1: a for i, a in enumerate(subj[2])}
-                    cctx = Ctx(cb, params=params)
+                    cctx = ctx.sub(cb, params=params)
                     sub_found = []
                     if guarded(cctx, guard, prog, depth - 1, sub_found)[0] and sub_found:
                         hit = (okt, errt, "helper:" + cb.key, subj)
@@ -364,7 +418,7 @@ def guarded(ctx, guard, prog, depth=3, found=None):
             if cb is not None and cb.key != ctx.body.key:
                 t = e["term"]
                 params = {i + 1: a for i, a in enumerate(t[2])} if t[0] == "call" else None
-                ok, off = guarded(Ctx(cb, params=params), guard, prog, depth - 1, found)
+                ok, off = guarded(ctx.sub(cb, params=params), guard, prog, depth - 1, found)
                 if ok:
                     continue
                 return False, off
@@ -402,7 +456,9 @@ def world_edges(ctx, subject_pred, want_some):
         for tg in bad:
             if tg not in good:
                 rem.add((bi, tg))
-    return rem, n
+    rem = Rem(rem)
+    rem.assume = ((subject_pred, ("ok", bool(want_some))),)
+    return rem, n or _deep_tests(ctx, lambda atom: (result_test(atom) or (None,))[0] is not None and subject_pred(result_test(atom)[0]))
 
 
 def variant_world_edges(ctx, subject_pred, variant):
@@ -419,7 +475,9 @@ def variant_world_edges(ctx, subject_pred, variant):
             for tg in tgs:
                 if tg not in good:
                     rem.add((bi, tg))
-    return rem, n
+    rem = Rem(rem)
+    rem.assume = ((subject_pred, ("variant", variant)),)
+    return rem, n or _deep_tests(ctx, lambda atom: atom[0] == "variant" and subject_pred(atom[1]))
 
 
 def bool_world_edges(ctx, term_pred, value):
@@ -433,7 +491,22 @@ def bool_world_edges(ctx, term_pred, value):
         for tg in atom[2][not value]:
             if tg not in good:
                 rem.add((bi, tg))
-    return rem, n
+    rem = Rem(rem)
+    rem.assume = ((term_pred, bool(value)),)
+    return rem, n or _deep_tests(ctx, lambda atom: atom[0] == "bool" and term_pred(atom[1]))
+
+
+def _deep_tests(ctx, atom_pred, depth=2):
+    """number of switches accepted by atom_pred in the local callees of ctx (parameters bound),
+    so that a test moved into a helper still counts as a test of the handler."""
+    n = 0
+    for c, path in inline_walk(ctx.prog, ctx, depth):
+        if not path:
+            continue
+        for bi, atom in c.atoms():
+            if atom_pred(atom):
+                n += 1
+    return n
 
 
 # ----------------------------------------------------------------------------- calls / call graph
@@ -606,7 +679,7 @@ def inline_walk(prog, ctx, depth=3, _path=()):
                     continue
                 ct = ctx.T.rvalue(rv, bi, si)
                 caps = {n: v for _, n, v in ct[2]}
-                sub = Ctx(cb, captures=caps)
+                sub = ctx.sub(cb, captures=caps)
                 yield from inline_walk(prog, sub, depth - 1, _path + ((b.key, bi, "closure"),))
         t = blk["term"]
         if t["k"] != "call":
@@ -621,11 +694,15 @@ def inline_walk(prog, ctx, depth=3, _path=()):
             continue
         idx = len(blk["stmts"])
         params = {i + 1: ctx.T.operand(a, bi, idx) for i, a in enumerate(t["args"])}
-        sub = Ctx(cb, params=params)
+        sub = ctx.sub(cb, params=params)
         yield from inline_walk(prog, sub, depth - 1, _path + ((b.key, bi, "call"),))
 
 
-def storage_ops_deep(prog, ctx, depth=3):
+def storage_ops_deep(prog, ctx, depth=3, raw=False):
+    """storage ops of ctx and of everything it calls (parameters bound).  Unless raw:
+       * `ITEM.update(storage, [key,] closure)` is presented as the equivalent
+         `ITEM.save(storage, [key,] closure(ITEM.load(storage, [key])?)?)` (op 'save', via='update'),
+         so that rules read one form of read-modify-write."""
     out = []
     for c, path in inline_walk(prog, ctx, depth):
         for op in storage_ops(c):
@@ -633,8 +710,66 @@ def storage_ops_deep(prog, ctx, depth=3):
             op["path"] = path
             # block in the ROOT body through which this op is reached (for dominance queries)
             op["root_bb"] = path[0][1] if path else op["bb"]
+            op["assumptions"] = c.assumptions
+            if not raw:
+                _normalise_op(prog, op)
             out.append(op)
     return out
+
+
+def _normalise_op(prog, op):
+    """adds op['value'] (the value written, for save and update alike; for update the closure's Ok
+    result with its parameter bound to the load of the same item/key), op['key'] and op['wop']
+    ('save' for save/update, else the op).  op/args stay as written."""
+    from .mir import intern
+    args = op["args"]
+    op["wop"] = op["op"]
+    if op["kind"] != "w" or len(args) <= 2:
+        return
+    head, rest = args[:2], args[2:]
+    if op["op"] == "save":
+        op["value"] = rest[-1]
+        op["key"] = rest[0] if len(rest) > 1 else None
+    elif op["op"] == "update":
+        op["key"] = rest[0] if len(rest) > 1 else None
+        clo = rest[-1]
+        cb = prog.body(clo[1]) if clo[0] == "closure" else None
+        if cb is not None:
+            if op["type"] == "Item":
+                stored = ("payload", ("call", "cw_storage_plus::Item::load", head), "Ok/Some")
+            else:
+                stored = ("call", "cw_storage_plus::%s::may_load" % op["type"], head + rest[:-1])
+            caps = {n: v for _, n, v in clo[2]}
+            cc = Ctx(cb, params={2: intern(stored)}, captures=caps, assumptions=op.get("assumptions", ())).settle()
+            op["value"] = ok_payload(cc.T.return_term())
+            op["stored"] = intern(stored)
+            op["wop"] = "save"
+    elif op["op"] == "remove":
+        op["key"] = rest[0] if rest else None
+
+
+def forms(prog, t, maxdepth=3, assumptions=()):
+    """equivalent spellings of a value term: as written, then with local pure helpers /
+    constructors inlined one more level each time.  A rule that recognises a value by shape
+    accepts it if ANY form matches (each form denotes the same value)."""
+    seen = []
+    for d in range(-1, maxdepth + 1):
+        f = t if d < 0 else resolve_terms(prog, t, d, None, assumptions)
+        if f not in seen:
+            seen.append(f)
+            yield f
+
+
+def match_any(prog, t, pred, maxdepth=3, assumptions=()):
+    """first truthy pred(form) over forms(t), else the falsy result for the raw term."""
+    first = None
+    for i, f in enumerate(forms(prog, t, maxdepth, assumptions)):
+        r = pred(f)
+        if i == 0:
+            first = r
+        if r:
+            return r
+    return first
 
 
 def aggregates(ctx, adt_pred):
@@ -670,7 +805,7 @@ def must_pass(ctx, block, targets=None):
 
 
 def _is_pure_small(prog, body):
-    if body.kind != "fn" or len(body.blocks) > 80:
+    if body.kind != "fn" or len(body.blocks) > 400:
         return False
     for bi, t in body.calls():
         nm = call_name(t) or ""
@@ -679,11 +814,40 @@ def _is_pure_small(prog, body):
     return True
 
 
-def resolve_terms(prog, t, depth=3, _memo=None):
+def ok_payload(t, tag="Ok/Some"):
+    """the Ok / Some payload of a Result / Option valued term: looks through `?`, drops the
+    alternatives that are certainly Err / None (they do not reach the use of the payload)."""
+    from .mir import intern
+    if t[0] == "trybranch":
+        t = t[1]
+    alts = t[1] if t[0] == "phi" else (t,)
+    out = []
+    for a in alts:
+        if a[0] == "trybranch":
+            a = a[1]
+        if a[0] == "agg" and a[2] in ("Ok", "Some") and len(a[3]) == 1:
+            v = a[3][0][2]
+        elif a[0] == "agg" and a[2] in ("Err", "None") and (a[1].endswith("result::Result") or a[1].endswith("option::Option")):
+            continue
+        elif a[0] == "call" and a[1] == "std::ops::FromResidual::from_residual":
+            continue
+        else:
+            v = ("payload", a, tag)
+        if v not in out:
+            out.append(v)
+    if not out:
+        return intern(("payload", t, tag))
+    return intern(Terms._phi(out))
+
+
+def resolve_terms(prog, t, depth=3, _memo=None, assumptions=()):
     """rewrite inside term t:
        ('call', <local pure fn>, args)        -> its return term with parameters bound (world-settled)
-       ('mut', prev, <local fn(&mut self,..)>, args) -> the final value of *self at return
-    so that constructors and &mut-self helpers become aggregates / field updates rules can read."""
+       ('mut', prev, <local fn(.., &mut x, ..)>, args) -> the final value of *x at return
+       ('payload', Ok(v) | phi(Ok(v), Err..)) -> v
+    so that constructors and &mut helpers become aggregates / field updates rules can read.
+    `assumptions` (the world of the calling context) prune the callee bodies and decide
+    Option::unwrap_or & co. of assumed values."""
     from .mir import intern
     if _memo is None:
         _memo = {}
@@ -694,43 +858,74 @@ def resolve_terms(prog, t, depth=3, _memo=None):
     if k in _memo:
         return _memo[k]
     _memo[k] = t
+    rec = lambda x, d=depth: resolve_terms(prog, x, d, _memo, assumptions)
     if t and isinstance(t[0], str):
         if t[0] == "call":
-            args = tuple(resolve_terms(prog, a, depth, _memo) for a in t[2])
+            args = tuple(rec(a) for a in t[2])
             cb = _callee_body(prog, t)
             out = None
-            if cb is not None and depth > 0 and _is_pure_small(prog, cb):
-                c = Ctx(cb, params={i + 1: a for i, a in enumerate(args)}).settle()
+            if assumptions and t[1] in _UNWRAP_OR and args:
+                a = assumed_ok(assumptions, args[0])
+                if a is True:
+                    out = ok_payload(args[0])
+                elif a is False and t[1].endswith("unwrap_or") and len(args) > 1:
+                    out = args[1]
+            if out is None and cb is not None and depth > 0 and _is_pure_small(prog, cb):
+                c = Ctx(cb, params={i + 1: a for i, a in enumerate(args)}, assumptions=assumptions).settle()
                 rt = c.T.return_term()
                 if not contains(rt, lambda s: s[0] in ("cycle", "undef")):
-                    out = resolve_terms(prog, rt, depth - 1, _memo)
+                    out = rec(rt, depth - 1)
             if out is None:
                 out = ("call", t[1], args) + tuple(t[3:])
         elif t[0] == "mut":
-            prev = resolve_terms(prog, t[1], depth, _memo)
-            args = tuple(resolve_terms(prog, a, depth, _memo) for a in t[3])
+            prev = rec(t[1])
+            args = tuple(rec(a) for a in t[3])
+            ai = t[4] if len(t) > 4 else 0
             cb = prog.body(t[2])
             out = None
             if cb is not None and depth > 0 and _is_pure_small(prog, cb):
-                params = {1: prev}
-                for i, a in enumerate(args):
-                    params[i + 2] = a
-                c = Ctx(cb, params=params).settle()
+                params = {ai + 1: prev}
+                rest = list(args)
+                for i in range(len(args) + 1):
+                    if i != ai:
+                        params[i + 1] = rest.pop(0)
+                c = Ctx(cb, params=params, assumptions=assumptions).settle()
                 finals = []
                 for bi in sorted(c.T.reach):
                     if cb.blocks[bi]["term"]["k"] == "return":
-                        finals.append(c.T.place({"l": 1, "p": ["deref"], "s": "(*_1)"}, bi, len(cb.blocks[bi]["stmts"])))
-                if finals:
-                    out = resolve_terms(prog, Terms._phi(finals), depth - 1, _memo)
+                        # only the returns that are not error exits matter to a caller that goes on
+                        finals.append((bi, c.T.place({"l": ai + 1, "p": ["deref"], "s": "(*_%d)" % (ai + 1)}, bi, len(cb.blocks[bi]["stmts"]))))
+                okb = set(e["bb"] for e in exits(c) if e["kind"] != "err")
+                errb = set(e["bb"] for e in exits(c) if e["kind"] == "err")
+                if okb and errb:
+                    # Result-returning helper: keep the final values that flow to a success return
+                    keep = []
+                    for bi, v in finals:
+                        cut = c.with_removed(set((p_, b_) for b_ in errb for p_ in cb.preds()[b_]))
+                        if bi in cut.T.reach:
+                            v = cut.T.place({"l": ai + 1, "p": ["deref"], "s": "(*_%d)" % (ai + 1)}, bi, len(cb.blocks[bi]["stmts"]))
+                            keep.append(v)
+                    vals = keep or [v for _, v in finals]
+                else:
+                    vals = [v for _, v in finals]
+                if vals and not any(contains(v, lambda s_: s_[0] in ("cycle", "undef")) for v in vals):
+                    out = rec(Terms._phi(vals), depth - 1)
             if out is None:
-                out = ("mut", prev, t[2], args)
+                out = ("mut", prev, t[2], args) + tuple(t[4:])
         elif t[0] == "field":
             from .mir import field_of
-            out = field_of(resolve_terms(prog, t[1], depth, _memo), t[2])
+            out = field_of(rec(t[1]), t[2])
+        elif t[0] == "payload":
+            out = ok_payload(rec(t[1]), t[2])
+        elif t[0] == "trybranch":
+            out = rec(t[1])
         else:
-            out = (t[0],) + tuple(resolve_terms(prog, x, depth, _memo) if isinstance(x, tuple) else x for x in t[1:])
+            out = (t[0],) + tuple(rec(x) if isinstance(x, tuple) else x for x in t[1:])
     else:
-        out = tuple(resolve_terms(prog, x, depth, _memo) if isinstance(x, tuple) else x for x in t)
+        out = tuple(rec(x) if isinstance(x, tuple) else x for x in t)
     out = intern(out)
     _memo[k] = out
     return out
+
+
+_UNWRAP_OR = {"std::option::Option::unwrap_or", "std::option::Option::unwrap_or_else", "std::option::Option::unwrap_or_default", "std::result::Result::unwrap_or"}
